@@ -4,7 +4,7 @@ from . import _histcheck
 
 PROPERTY = 'C10'
 LEVEL = 'exploration'
-RULE = ('per element-content type: core = every <=1 addition (thorough <=2 for alphabets <=10) followed by one removal / replacement (own and foreign name, by object and by predicate) / forward addition (valid, past the maximum, out of range, negative) / shortcut / serialisation, and every sequence of <=2 additions (<=3 for alphabets <=12; failures at maxOccurs, exclusive choices, after duplication); halo = failure-biased seeded histories. Plus, for every element class, refused value_ and attribute assignments (objects, containers, out-of-space strings and numbers) bracketed by snapshots of value, attributes and serialisation. Only histories in which some operation raised are judged (others count as trivial). distinct = distinct operation string')
+RULE = ('per element-content type: core = every <=1 addition (thorough <=2 for alphabets <=10) (and every [addition, serialisation with either flag, one change of that child, serialisation]) followed by one removal / replacement (own and foreign name, by object and by predicate) / forward addition (valid, past the maximum, out of range, negative) / shortcut / serialisation, and every sequence of <=2 additions (<=3 for alphabets <=12; failures at maxOccurs, exclusive choices, after duplication); halo = failure-biased seeded histories. Plus, for every element class, refused value_ and attribute assignments (objects, containers, out-of-space strings and numbers) bracketed by snapshots of value, attributes and serialisation. Only histories in which some operation raised are judged (others count as trivial). distinct = distinct operation string')
 ASSUMPTIONS = ['reference DFAs built from /verif/ref/musicxml_4_0.xsd are the schema (self-tested, cross-checked by C03)', 'children are minimal unchecked instances so only the parent level is judged; parents carry their schema-required attributes', 'witnesses are shrunk by delta debugging before classification; beyond a fixed number per pre-signature they are only counted']
 TIMEOUT = {'quick': 900, 'thorough': 5400}
 PROPS = ('C10',)
@@ -80,7 +80,7 @@ def run_shard(shard, tier, seed):
     t = shard['type']
     n = genhist.nadd_for(t, tier)
     m = 1 if tier == 'quick' or len(ref.DFAS[t].alphabet) > 10 else 2
-    cores = [genhist.core_mixed(t, m), genhist.core_additions(t, min(n, 3 if len(ref.DFAS[t].alphabet) <= (6 if tier == 'quick' else 12) else 2))]
+    cores = [genhist.core_str_then_change(t), genhist.core_mixed(t, m), genhist.core_additions(t, min(n, 3 if len(ref.DFAS[t].alphabet) <= (6 if tier == 'quick' else 12) else 2))]
     halos = [('failure', 60, 10), ('mixed', 20, 10), ('serialise', 16, 8)] if tier == 'quick' else [('failure', 600, 14), ('mixed', 300, 12), ('serialise', 200, 10)]
     return _histcheck.run(shard, tier, seed, PROPERTY, cores, halos, PROPS, shrink_per_presig=3)
 
